@@ -804,6 +804,33 @@ pub mod simd {
         let limit: usize = which.rsplit(':').next().and_then(|x| x.parse().ok()).unwrap_or(64);
         if which.starts_with("simd_sse:") { sweep!(FftPlannerSse, f32, limit, 2e-4); sweep!(FftPlannerSse, f64, limit, 1e-11); return None; }
         if which.starts_with("simd_avx:") { sweep!(FftPlannerAvx, f32, limit, 2e-4); sweep!(FftPlannerAvx, f64, limit, 1e-11); return None; }
+        if which.starts_with("simd_mem:") {
+            // run under valgrind/memcheck by run.py: every buffer is a heap block of EXACTLY the required size, so a read or write one
+            // element outside a caller's slice (which the canary pads of `one` cannot see for reads) is an invalid access
+            macro_rules! mem {
+                ($planner:ident, $t:ty) => {{
+                    if let Ok(mut p) = crate::$planner::<$t>::new() {
+                        for n in 1..limit {
+                            let d = if n % 2 == 0 { FftDirection::Forward } else { FftDirection::Inverse };
+                            let f = p.plan_fft(n, d);
+                            for k in 1..=2usize {
+                                for entry in 0..3 {
+                                    let adv = match entry { 0 => f.get_inplace_scratch_len(), 1 => f.get_outofplace_scratch_len(), _ => f.get_immutable_scratch_len() };
+                                    eprintln!("CASE {}::<{}>.plan_fft({}, {:?}) entry {} chunks {} (exact-size heap buffers, scratch {})", stringify!($planner), stringify!($t), n, d, entry, k, adv);
+                                    let mut a: Box<[Complex<$t>]> = (0..k * n).map(gen::<$t>).collect::<Vec<_>>().into_boxed_slice();
+                                    let mut b: Box<[Complex<$t>]> = vec![Complex::new(0.0, 0.0); k * n].into_boxed_slice();
+                                    let mut c: Box<[Complex<$t>]> = vec![Complex::new(0.0, 0.0); adv].into_boxed_slice();
+                                    match entry { 0 => f.process_with_scratch(&mut a, &mut c), 1 => f.process_outofplace_with_scratch(&mut a, &mut b, &mut c), _ => f.process_immutable_with_scratch(&a, &mut b, &mut c) }
+                                    std::hint::black_box((&a, &b, &c));
+                                }
+                            }
+                        }
+                    }
+                }};
+            }
+            mem!(FftPlannerAvx, f32); mem!(FftPlannerAvx, f64); mem!(FftPlannerSse, f32); mem!(FftPlannerSse, f64);
+            return None;
+        }
         if which.starts_with("simd_pairs") {
             // history quantifier of C10/C04 on the SIMD planners, shape level only (no transform is executed): for every ordered pair
             // (a, b) of lengths below the first limit, and for the AVX planner additionally every pair a | b of 11-smooth lengths
@@ -852,7 +879,7 @@ pub mod simd {
         }
         None
     }
-    pub fn known(which: &str) -> bool { which.starts_with("simd_sse:") || which.starts_with("simd_avx:") || which.starts_with("simd_history") || which.starts_with("simd_pairs") }
+    pub fn known(which: &str) -> bool { which.starts_with("simd_sse:") || which.starts_with("simd_avx:") || which.starts_with("simd_history") || which.starts_with("simd_pairs") || which.starts_with("simd_mem:") }
 }
 #[cfg(not(all(target_arch = "x86_64", feature = "sse", feature = "avx")))]
 pub mod simd {
